@@ -1,0 +1,46 @@
+//go:build verif
+
+// Machine-checked contracts for package flows/modifiers (comment-only; read by /verif/gocv).
+// C03: result <=> the contact changed <=> a change event carrying the new state was logged.
+
+package modifiers
+
+//@ func (m *NameModifier) Apply
+//@   requires m != nil && contact != nil && EngRep(eng) && eng.(*engine.engine).options.MaxFieldChars >= 0
+//@   assigns contact.name, effects(flows.EventCallback)
+//@   ensures [modified_iff_changed] result <==> contact.name != old(contact.name)
+//@   ensures [value] contact.name == (result ? sp_truncate(m.Name, eng.(*engine.engine).options.MaxFieldChars) : old(contact.name))
+//@   ensures [event] result ==> (len(ghost.evlog) == old(len(ghost.evlog)) + 1 && typeis(last(ghost.evlog), *events.ContactNameChangedEvent) && last(ghost.evlog).(*events.ContactNameChangedEvent).Name == contact.name)
+//@   ensures [no_event] !result ==> ghost.evlog == old(ghost.evlog)
+//@   ensures [limit] result ==> runes(contact.name) <= eng.(*engine.engine).options.MaxFieldChars
+
+//@ lemma name_idempotent(m *NameModifier, eng flows.Engine, env envs.Environment, sa flows.SessionAssets, contact *flows.Contact, log flows.EventCallback)
+//@   uses truncate_idem
+//@   requires m != nil && contact != nil && EngRep(eng) && eng.(*engine.engine).options.MaxFieldChars >= 0
+//@   call r1 := m.Apply(eng, env, sa, contact, log)
+//@   call r2 := m.Apply(eng, env, sa, contact, log)
+//@   assert [second_reports_nothing] !r2
+
+//@ func (m *LanguageModifier) Apply
+//@   requires m != nil && contact != nil
+//@   assigns contact.language, effects(flows.EventCallback)
+//@   ensures [modified_iff_changed] result <==> contact.language != old(contact.language)
+//@   ensures [value] contact.language == m.Language
+//@   ensures [event] result ==> (len(ghost.evlog) == old(len(ghost.evlog)) + 1 && typeis(last(ghost.evlog), *events.ContactLanguageChangedEvent) && last(ghost.evlog).(*events.ContactLanguageChangedEvent).Language == string(contact.language))
+//@   ensures [no_event] !result ==> ghost.evlog == old(ghost.evlog)
+
+//@ func (m *StatusModifier) Apply
+//@   requires m != nil && contact != nil
+//@   assigns contact.status, effects(flows.EventCallback)
+//@   ensures [modified_iff_changed] result <==> contact.status != old(contact.status)
+//@   ensures [value] contact.status == m.Status
+//@   ensures [event] result ==> (len(ghost.evlog) == old(len(ghost.evlog)) + 1 && typeis(last(ghost.evlog), *events.ContactStatusChangedEvent) && last(ghost.evlog).(*events.ContactStatusChangedEvent).Status == contact.status)
+//@   ensures [no_event] !result ==> ghost.evlog == old(ghost.evlog)
+
+//@ func (m *TicketModifier) Apply
+//@   requires m != nil && contact != nil && m.topic != nil
+//@   assigns contact.ticket, effects(flows.EventCallback)
+//@   ensures [modified_iff_changed] result <==> contact.ticket != old(contact.ticket)
+//@   ensures [only_if_none] result <==> old(contact.ticket) == nil
+//@   ensures [event] result ==> (len(ghost.evlog) == old(len(ghost.evlog)) + 1 && typeis(last(ghost.evlog), *events.TicketOpenedEvent) && last(ghost.evlog).(*events.TicketOpenedEvent).Ticket != nil && last(ghost.evlog).(*events.TicketOpenedEvent).Ticket.UUID == contact.ticket.uuid)
+//@   ensures [no_event] !result ==> ghost.evlog == old(ghost.evlog)
